@@ -619,7 +619,7 @@ def search_truncation(ctx: Ctx, only: dict[str, Any] | None = None) -> SearchRes
 
 	# (1) loader level, every offset of small files: EntryStored.load / json.loads (SymbolDBPersistor._restore) / LarkStored.load
 	from rogw.tranp.implements.syntax.lark.parser import EntryStored, LarkStored
-	shapes = ['chain3', 'diamond'] if not ctx.thorough else list(graph_shapes())
+	shapes = ['chain3', 'diamond'] if not ctx.thorough else ['chain3', 'diamond', 'siblings2', *rng.sample([x for x in graph_shapes() if x not in ('chain3', 'diamond', 'siblings2')], 2)]
 	if only is not None:
 		shapes = [only['shape']] if only.get('search') == 'truncation-loader' else []
 	for shape in shapes:
